@@ -64,7 +64,10 @@ def gen(seed: int, tier: str) -> dict[str, Any]:
                         "k": rng.choice(["ack", "nak", "data", "data_prev", "disconnect", "connect", "data_far"]),
                         "n": rng.randrange(16)})
     return {"seed": seed, "tier": "S", "config": {"batch": 1, "con_lost": (not clean) and rng.random() < 0.15,
-                                                   "rate_limit": rng.choice([0, 20])},
+                                                   "rate_limit": rng.choice([0, 20]),
+                                                   # delay of the L_Data.con of every frame sent: the device's T_ACK / answer
+                                                   # may overtake the confirmation of the request (UDP tunnel reordering)
+                                                   "con_d": 0.003 if clean else rng.choice([0.003, 0.003, 0.003, 0.03, 0.3])},
             "devices": devs, "ops": ops, "inject": inj}
 
 
@@ -78,7 +81,7 @@ def run(plan: dict[str, Any]) -> dict[str, Any]:
     cfg = plan["config"]
     R = Run(plan, max_time=5000.0)
     loop = R.loop
-    xknx, stub, q = make_xknx(R)
+    xknx, stub, q = make_xknx(R, default={"lat": 0.002, "out": "ok", "con": "after", "con_d": cfg.get("con_d", 0.003)})
     xknx.current_address = IndividualAddress(OWN)
     from xknx.management import Management
     seen_in: list[tuple[int, Any]] = []       # (event number, telegram object) of everything handed to Management.process
